@@ -57,6 +57,9 @@ class BaseValidator(object):
                 self._cid.data_format.is_valid
             ), "DataFormat.validate() must be called before using a CID for validation"
         self._expected_item_count = len(self._cid.field_formats)
+        # Start with a clean slate in case the CID has already been used to validate other data.
+        for check in self._cid.check_map.values():
+            check.reset()
         self._location = None
         self._is_closed = False
         self._skip_checks_at_end = False
@@ -243,8 +246,6 @@ class Reader(BaseValidator):
         """
         self.accepted_rows_count = 0
         self.rejected_rows_count = 0
-        for check in self.cid.check_map.values():
-            check.reset()
         header_row_count = self._cid.data_format.header
         for row_count, row in enumerate(self._raw_rows(), 1):
             try:
